@@ -10,7 +10,7 @@ for d in sorted(glob.glob("/verif/seeded/*/")):
     v = m.get("verification", {})
     vio = [l.split("replays/")[-1].split("/")[-1].rsplit("-", 1)[0] for l in v.get("check_output", []) if l.startswith("VIOLATION")]
     rows.append((os.path.basename(d.rstrip("/")), (m.get("summary") or "")[:150].replace("|", "/"),
-                 (m.get("manifests_when") or "")[:130].replace("|", "/"), "yes" if v.get("detected") else "NO",
+                 (m.get("manifests_when") or "")[:130].replace("|", "/"), ("yes" if v.get("detected_with_input", v.get("detected")) else ("only broken obligation" if v.get("detected") else "NO")),
                  ", ".join(sorted(set(vio)))[:120]))
 print("| seed | change | needs | detected | by (failure classes) |\n|---|---|---|---|---|")
 for r in rows:
